@@ -211,6 +211,28 @@ def share_tree(el, _seen=None):
     return el
 
 
+def global_state():
+    """shallow images of every mutable container reachable as a module global or class attribute of a statham
+    module: process-wide state that all threads share (e.g. a class-level dict written through an instance)"""
+    import sys
+
+    out = {}
+    for mname, mod in list(sys.modules.items()):
+        if mod is None or not (mname == "statham" or mname.startswith("statham.")):
+            continue
+        for gname, g in list(vars(mod).items()):
+            if isinstance(g, (dict, list, set)) and not gname.startswith("__"):
+                out[(mname, gname)] = repr(sorted(map(repr, g.items())) if isinstance(g, dict) else sorted(map(repr, g)))
+            if isinstance(g, type) and getattr(g, "__module__", None) == mname:
+                for aname, a in list(vars(g).items()):
+                    if isinstance(a, (dict, list, set)) and not aname.startswith("__"):
+                        try:
+                            out[(mname, gname, aname)] = repr(sorted(map(repr, a.items())) if isinstance(a, dict) else sorted(map(repr, a)))
+                        except Exception:  # noqa
+                            out[(mname, gname, aname)] = "<unprintable %d>" % len(a)
+    return out
+
+
 def no_interference(make, v, probes=()):
     """step 1: no effective write to a pre-existing object during el(v).
     In replay (plain interpreter) an effective shared write is followed by step 2: only a schedule that
@@ -227,6 +249,7 @@ def no_interference(make, v, probes=()):
     el = make()
     el = share_tree(el)
     reg_before = dict(format_checker._callable_register)
+    g_before = global_state()
     MON.active = True
     try:
         verdict(el, jcopy(v))
@@ -234,12 +257,28 @@ def no_interference(make, v, probes=()):
         MON.active = False
     if dict(format_checker._callable_register) != reg_before:
         return False
+    g_after = global_state()
+    for key in g_after:
+        if g_before.get(key) != g_after[key]:
+            MON.effective.append(("global", ".".join(key[:-1]), key[-1], None))
     if len(MON.effective) == 0:
         return True
     if _tracing():
         return False
     writes = sorted(set((e[1], e[2]) for e in MON.effective))
+    only_global = all(e[0] == "global" for e in MON.effective)
     why = harmful_schedule(make, [v] + list(probes))
+    if why is None and only_global:
+        # a builtin container at class / module level cannot be hooked for a forced schedule:
+        # free-running threads with a tiny switch interval (probabilistic, stated in the evidence)
+        vals = [v] + list(probes)
+        for a in vals:
+            for b in vals:
+                if not threads_equal_sequential(make, a, b, 60):
+                    why = "free-running threads on values %r / %r differ from their solo runs (process-global container %s written during validation)" % (a, b, writes)
+                    break
+            if why:
+                break
     if why is not None:
         print("C14 step 2:", why)
         return False
@@ -522,6 +561,7 @@ TEMPLATES = {
     "array_of_objects": ("m: int", 'Array(Object.inline("It", properties={"a": Property(Integer(maximum=m), required=True)}), minItems=1)', "List[Dict[str, int]]", ["len(v) <= 2", "all(len(d) <= 1 and all(k in ('a', 'b') for k in d) for d in v)"]),
     "composition": ("m: int", 'parse_s({"anyOf": [{"type": "object", "title": "A", "required": ["a"], "properties": {"a": {"minimum": m}}}, {"type": "integer"}], "not": {"const": 3}, "oneOf": [{"type": "object", "title": "B"}, {"type": "integer", "maximum": m}]})', "Union[int, Dict[str, int]]", ["(not isinstance(v, dict)) or (len(v) <= 1 and all(k in ('a', 'b') for k in v))"]),
     "inherited": ("m: int", '_child(m)', DV, DPRE),
+    "mixed_types": ("m: int", 'Object.inline("Mx", properties={"s": Property(String(maxLength=2)), "i": Property(Integer(minimum=m)), "l": Property(Array(Boolean())), "u": Property(Element()), "n": Property(Null())})', "Dict[str, Union[int, str, None]]", ["len(v) <= 2", "all(k in ('s', 'i', 'u', 'n') for k in v)", "all((not isinstance(x, str)) or len(x) <= 1 for x in v.values())"]),
     "format_uuid": ("m: int", 'AnyOf(String(format="uuid", minLength=m), Element(properties={"a": Property(String(format="uuid"), required=True)}, maxProperties=1))', "Union[int, str, Dict[str, str]]", ["not isinstance(v, str) or len(v) <= 2", "(not isinstance(v, dict)) or (len(v) <= 1 and all(k in ('a', 'b') for k in v) and all(len(x) <= 1 for x in v.values()))"]),
     "format_enum": ("m: int", 'Element(format="uuid", enum=["x", m, [m]], const=m, properties={"a": Property(String(format="nope"))})', "Union[int, str, Dict[str, int]]", ["not isinstance(v, str) or len(v) <= 2", "(not isinstance(v, dict)) or (len(v) <= 1 and all(k in ('a', 'b') for k in v))"]),
 }
@@ -547,6 +587,7 @@ PROBES = {
     "array_of_objects": '[[{"a": m}], [{"a": m + 1}], [], [{}]]',
     "composition": '[{"a": m}, {"a": m - 1}, 3, m, m + 1, "s"]',
     "inherited": '[{"a": m, "b": 1}, {"a": m - 1, "b": 1}, {"a": m}, {"a": m, "b": 1, "c": "x"}]',
+    "mixed_types": '[{"s": "ab", "i": m}, {"s": 1}, {"i": "x"}, {"l": [True], "u": 1}, {"l": [1]}, {"n": None, "s": "a"}, {"n": 0}]',
     "format_uuid": '["123e4567-e89b-12d3-a456-426614174000", "not-a-uuid", {"a": "123e4567-e89b-12d3-a456-426614174000"}, {"a": "zz"}, 5]',
     "format_enum": '["x", m, [m], "y", {"a": "s"}, {"a": 1}]',
 }
@@ -561,7 +602,7 @@ def make():
 return no_interference(make, v, {PROBES[name]})
 """
         hs.append(mk(f"c14_noninterference_{name}", f"{hargs}, v: {vt}", pre, body, timeout=200, group="step1",
-                     tier="quick" if name in ("class_required", "element_required", "parsed_typed", "tuple_items", "composition", "inherited", "format_uuid") else "thorough",
+                     tier="quick" if name in ("class_required", "element_required", "parsed_typed", "tuple_items", "composition", "inherited", "format_uuid", "mixed_types") else "thorough",
                      covers=f"{make}: no effective write to a pre-existing object during el(v)"))
     hs.append(mk("c14__monitor_sees", "m: int", [], 'return not monitor_sees(lambda: Object.inline("M", properties={"a": Property(Integer(minimum=m))}))', kind="witness", timeout=30))
     return hs
